@@ -144,6 +144,12 @@ def fallback_constants(ctx, g):
         ctx.ob("T4-z3-invariants", b.name, "bad_subgroup_invariants(fg, 2, [0,0,0])", "ok" if ok else "violation",
                "index-2 subgroups are compared with Z^3" if ok else "index-2 subgroups of the cover are compared with %s, not with [0, 0, 0]" % (lit and [show(norm(x, g), 1) for x in lit],), b.span_of(bi))
     ctx.floor("bad_subgroup_invariants calls in is_euclidean", m, 1)
+    bsi = ctx.body("euclidicity::bad_subgroup_invariants")
+    for bi, t in bsi.calls(exact="fpgroups::stabilizer::stabilizer"):
+        every_iteration_reaches(ctx, "T3-no-skipped-subgroup", bsi, bi, "table-loop->stabilizer", "some subgroup of the given index is not examined: a non-euclidean cover can pass the fallback test")
+    trues = [bi for bi, si, s in bsi.assigns() if s["place"]["l"] == 0 and norm(bsi.rv_origin(s["rv"]), g) == ("int", 0)]
+    okf = bool(trues) and all(any(a[0] == "variant" and a[2] == 0 and is_call(a[1], "Iterator::next") for a in bsi.facts_at(bi)) for bi in trues)
+    ctx.require(okf, "T3-no-skipped-subgroup", bsi.name, "return false", "`not bad` only after every subgroup was examined", "bad_subgroup_invariants can return false before all subgroups were examined")
     # invars != [0,0,0] on the connected path: a comparison of abelian_invariants(..) with a 3-zero array dominates the fallback chain
     okc = False
     for bi, t in b.calls():
